@@ -526,7 +526,7 @@ def run(prog, rep):
                 sec_loops.append((fx, lp, t))
     rep.floor("SAME-1", len(sec_loops), 1, "loops over section elements in _replace_same_name_entities")
     for fx, lp, t in sec_loops:
-        rep.check(bool(re.search(r"\.(iter|iterdescendants|getiterator)\(\s*['\"]section['\"]", t)), "SAME-1", "Sections of every depth are visited", t[:50],
+        rep.check(bool(re.search(r"\.(iter|iterdescendants|getiterator)\(\s*['\"]section['\"]|\.(findall|iterfind)\(\s*['\"]\.//section['\"]", t)), "SAME-1", "Sections of every depth are visited", t[:50],
                   "_replace_same_name_entities visits the Sections with `%s`: only the direct children of the root - clashing names below the top "
                   "level stay, and the second of two equal names is lost when the converted file is loaded" % t[:60], where(fx, lp),
                   witness="two sub-Sections 'rec' under one Section in a v1.0 file: one of them is missing from the converted document")
